@@ -25,6 +25,7 @@ macro_rules! proof {
         #[kani::stub(rust_decimal::Decimal::checked_add, $crate::env::decimal::checked_add)]
         #[kani::stub(rust_decimal::Decimal::checked_sub, $crate::env::decimal::checked_sub)]
         #[kani::stub(<rust_decimal::Decimal as rust_decimal::MathematicalOps>::sqrt, $crate::env::decimal::sqrt)]
+        #[kani::stub(<smol_str::SmolStr as core::clone::Clone>::clone, $crate::env::misc::smolstr_clone)]
         #[kani::stub(chrono::Utc::now, $crate::env::misc::utc_now)]
         #[kani::stub($crate::env::misc::is_native, $crate::env::misc::is_native_false)]
         $(#[$m])*
@@ -45,6 +46,10 @@ mod c17_dataset;
 mod c18_drawdown;
 #[cfg(kani)]
 mod c16_tearsheet;
+#[cfg(kani)]
+mod c14_connectivity;
+#[cfg(kani)]
+mod c01_orders;
 
 /// Concrete-playback tests written by the driver (`/verif/check`) when a harness fails; runs the
 /// harness natively, without stubs, against the real crates.
